@@ -72,6 +72,7 @@ class HopEnv(object):
     self.wm = wiresys.WireModules(ctx.scratch)
     self.wm.settings['PICKLE_RECEIVER_MAX_LENGTH'] = 2 ** 20
     self.configured = None
+    self.witnessed = False
 
   def client(self, proto, mpm, pause_period=0):
     s = self.wm.settings
@@ -135,7 +136,13 @@ def related(proto, sent, got):
     return a == b
   d = abs(Fraction(a) - Fraction(b))
   ulp = Fraction(math.ulp(float(a))) if float(a) not in (float('inf'), float('-inf')) else 0
-  return d <= Fraction(5, 10 ** 11) or d <= ulp
+  if d <= Fraction(5, 10 ** 11) or d <= ulp:
+    return True
+  # listed finding F17: the decimal text is within 5e-11 of the value, but parsing it back rounds once more
+  # (half a unit in the last place of the RESULT): the total may exceed 5e-11 by that much
+  if d <= Fraction(5, 10 ** 11) + Fraction(math.ulp(float(b))) / 2:
+    return 'halfulp'
+  return False
 
 
 def one_queue(ctx, he, rng, proto, mpm, n):
@@ -146,6 +153,9 @@ def one_queue(ctx, he, rng, proto, mpm, n):
     dps = [(pool[q % 2] if rng.random() < 0.7 else d[0], float(1000 + 3 * q) + (0.5 if rng.random() < 0.3 else 0.0), d[2])
            for q, d in enumerate(dps)]
   # every other queue goes out through a transport that pushes back in the middle of batches
+  if proto == 'line' and not he.witnessed:
+    dps[0] = (dps[0][0], dps[0][1], 39095.38037296945)      # witness of the listed finding F17 (every run)
+    he.witnessed = True
   f, p, tr = he.client(proto, mpm, pause_period=rng.choice([0, 0, 1, 2, 3, 5]))
   # datapoints arrive in bursts; the send timer fires in between
   i = 0
@@ -207,6 +217,7 @@ def one_queue(ctx, he, rng, proto, mpm, n):
   cutsets = [c if len(c) <= 160 else c[:150] for c in cutsets]
   bykey = {(dps[q][0], math.floor(dps[q][1])): q for q in range(n)}
   relcache = {}
+  halfulp = {}
   for cuts in cutsets:
     run = wiresys.Run(he.wm, lproto)
     segs = []
@@ -224,13 +235,15 @@ def one_queue(ctx, he, rng, proto, mpm, n):
           key = (q, g[1], g[2])
           if key not in relcache:
             relcache[key] = q is not None and related(proto, dps[q], g)
+          if relcache[key] == 'halfulp':
+            halfulp[q] = (repr(dps[q][2]), repr(g[2]))
           dl.append(q + 1 if relcache[key] else 0)
         nseen = len(run.seen)
         segs.append(dict(n=b - a, delivered=dl, escaped=esc, closed=1 if run.tr.disconnecting else 0))
     finally:
       run.close()
     out.append(dict(proto=proto, mode='frames', ref=[], refclosed=0, frames=frames, segs=segs,
-                    batches=batches, mpm=mpm, n=n))
+                    batches=batches, mpm=mpm, n=n, halfulp=sorted(halfulp.values())))
   return out, dps, raw
 
 
@@ -269,6 +282,9 @@ def run(ctx):
       ctx.violation('a message written by the %s client cannot be decoded on its own by an independent decoder (%s)' % (tr['proto'], tr['undecodable']),
                     dict(origin=origins[i]), signature='undecodable:' + tr['proto'])
       continue
+    for sent, got in tr.get('halfulp', ()):
+      ctx.violation('line protocol: the value received differs from the value queued by more than 5e-11 and more than one unit in the last place '
+                    '(queued %s, received %s)' % (sent, got), dict(queued=sent, received=got, origin=origins[i]), signature='line-halfulp')
     if any(b > tr['mpm'] or b < 1 for b in tr['batches']) or sum(tr['batches']) != tr['n']:
       fl.add('batching')
     for f in sorted(fl & PROP):
